@@ -143,9 +143,26 @@ def wantCpp (c : CppCfg) (d : Decl) : WantDecl :=
   | .function _ _ _ _ _ => { common with name := "" }
   | .error _ codes => { common with kind := "error", codes := codes.map (cppWantCode c) }
 
+def javaWantMember (c : JavaCfg) (f : FieldD) : Want := { ty := refJava c f.ty false, name := convert c.fieldStyle f.name }
+
+def javaWantGetter (c : JavaCfg) (f : FieldD) : WantMethod :=
+  { pre := ["public"], ret := refJava c f.ty false, name := convert c.methodStyle ("get_" ++ f.name), params := [], post := [] }
+
+/-- thrown error domains are listed by their simple class names, for synchronous methods only -/
+def javaWantThrows (c : JavaCfg) (m : MethodD) : List String :=
+  match m.throwing with
+  | some l => if m.isAsync then [] else l.map (fun e => match e with | .user eu => convert c.tyStyle eu.name | e => javaRefName c e)
+  | none => []
+
+def javaWantMethod (c : JavaCfg) (m : MethodD) : WantMethod :=
+  { pre := ["public", if m.isStatic then "static" else "abstract"], ret := refJavaRet c m.ret m.isAsync,
+    name := convert c.methodStyle m.name, params := m.params.map (javaWantMember c), post := javaWantThrows c m }
+
+def javaWantCode (c : JavaCfg) (k : CodeD) : WantCode :=
+  { name := convert c.tyStyle k.name, fields := k.params.map (javaWantMember c), ctor := k.params.map (javaWantMember c) }
+
 def wantJava (c : JavaCfg) (d : Decl) : WantDecl :=
   let u := d.info
-  let mem (f : FieldD) : Want := { ty := refJava c f.ty false, name := convert c.fieldStyle f.name }
   let pub : List String := if c.classPublic then ["public"] else []
   let anonymous := match d with | .function _ a _ _ _ => a | _ => false
   let common : WantDecl :=
@@ -159,32 +176,43 @@ def wantJava (c : JavaCfg) (d : Decl) : WantDecl :=
   | .record _ fields _ _ =>
     { common with
       kind := "struct", mods := pub ++ (if c.useFinal && !u.targets.contains "java" then ["final"] else []),
-      fields := fields.map mem, ctor := fields.map mem,
-      methods := fields.map (fun f => { pre := ["public"], ret := refJava c f.ty false, name := convert c.methodStyle ("get_" ++ f.name), params := [], post := [] }) }
+      fields := fields.map (javaWantMember c), ctor := fields.map (javaWantMember c), methods := fields.map (javaWantGetter c) }
   | .interface _ methods =>
     { common with
-      kind := "class", mods := pub ++ ["abstract"], methods := methods.map (fun m =>
-        { pre := ["public", if m.isStatic then "static" else "abstract"], ret := refJavaRet c m.ret m.isAsync,
-          name := convert c.methodStyle m.name, params := m.params.map mem,
-          post := match m.throwing with
-            | some l => if m.isAsync then [] else l.map (fun e => match e with | .user eu => convert c.tyStyle eu.name | e => javaRefName c e)
-            | none => [] }) }
+      kind := "class", mods := pub ++ ["abstract"], methods := methods.map (javaWantMethod c) }
   | .function _ _ params ret _ =>
     { common with
       kind := "function", mods := pub,
-      methods := [{ pre := [], ret := refJavaRet c ret false, name := "invoke", params := params.map mem, post := [] }] }
+      methods := [{ pre := [], ret := refJavaRet c ret false, name := "invoke", params := params.map (javaWantMember c), post := [] }] }
   | .error _ codes =>
     { common with
-      kind := "error", codes := codes.map (fun k => { name := convert c.tyStyle k.name, fields := k.params.map mem, ctor := k.params.map mem }) }
+      kind := "error", codes := codes.map (javaWantCode c) }
 
 def annT (ann : String) (e : TExp) : TExp := if ann.isEmpty then e else .suffix (.atom ann) (printT e)
 
+def objcWantMember (c : ObjcCfg) (parameter : Bool) (f : FieldD) : Want :=
+  { ty := annT (refObjcAnnotation (some f.ty) false) (refObjc c f.ty parameter false), name := convert c.fieldStyle f.name }
+
+/-- the completion block of an asynchronous method -/
+def objcWantCompletion (c : ObjcCfg) (m : MethodD) : TExp :=
+  if m.ret.isNone && !m.throwing.isNone then .atom "nonnull void (^)(NSError* _Nullable)"
+  else .atom ("nonnull void (^)(" ++ printT (refObjcO c m.ret) ++ " " ++ refObjcAnnotation m.ret true ++ (if m.throwing.isNone then "" else ", NSError* _Nullable") ++ ")")
+
+/-- asynchronous methods take a completion block, throwing ones an `NSError**` slot -/
+def objcWantMethod (c : ObjcCfg) (m : MethodD) : WantMethod :=
+  { pre := [if m.isStatic then "+" else "-"],
+    ret := if m.isAsync then .atom "void" else annT (refObjcAnnotation m.ret false) (refObjcO c m.ret),
+    name := convert c.methodStyle m.name,
+    params := m.params.map (objcWantMember c true) ++
+      (if m.isAsync then [{ ty := objcWantCompletion c m, name := "completion" }]
+       else if m.throwing.isSome then [{ ty := .atom "NSError* _Nullable * _Nonnull", name := "error" }] else []),
+    post := [] }
+
+def objcWantName (c : ObjcCfg) (u : UInfo) : String := c.typePrefix ++ objcNamespace c u.ns ++ convert c.tyStyle (baseName "objc" u)
+
 def wantObjc (c : ObjcCfg) (d : Decl) : WantDecl :=
   let u := d.info
-  let n := c.typePrefix ++ objcNamespace c u.ns ++ convert c.tyStyle (baseName "objc" u)
-  let plain := objcUserTypename c u
-  let mem (parameter : Bool) (f : FieldD) : Want :=
-    { ty := annT (refObjcAnnotation (some f.ty) false) (refObjc c f.ty parameter false), name := convert c.fieldStyle f.name }
+  let n := objcWantName c u
   let common : WantDecl := { kind := "none", name := n, scope := "", mods := [] }
   match d with
   | .enum _ items => { common with
@@ -195,38 +223,38 @@ def wantObjc (c : ObjcCfg) (d : Decl) : WantDecl :=
     let initName := match fields with | f :: _ => convert c.methodStyle ("init_with_" ++ f.name) | [] => "init"
     let convName := match fields with | f :: _ => convert c.methodStyle (baseName "objc" u ++ "_with_" ++ f.name) | [] => convert c.methodStyle u.name
     { common with
-      kind := "struct", mods := ["interface"], fields := fields.map (mem false), ctor := fields.map (mem false),
-      methods := [{ pre := ["-"], ret := .atom "nonnull instancetype", name := initName, params := fields.map (mem false), post := [] },
-                  { pre := ["+"], ret := .atom "nonnull instancetype", name := convName, params := fields.map (mem false), post := [] }] ++
+      kind := "struct", mods := ["interface"], fields := fields.map (objcWantMember c false), ctor := fields.map (objcWantMember c false),
+      methods := [{ pre := ["-"], ret := .atom "nonnull instancetype", name := initName, params := fields.map (objcWantMember c false), post := [] },
+                  { pre := ["+"], ret := .atom "nonnull instancetype", name := convName, params := fields.map (objcWantMember c false), post := [] }] ++
                  (if derivingOrd then [{ pre := ["-"], ret := .atom "NSComparisonResult", name := "compare", params := [{ ty := .atom ("nonnull " ++ n ++ " *"), name := "other" }], post := [] }] else []) }
   | .interface _ methods =>
     { common with
       kind := "class", mods := if u.targets.contains "objc" then ["protocol"] else ["interface"],
-      methods := methods.map (fun m =>
-        let noexcept := m.throwing.isNone
-        let completion : TExp :=
-          if m.ret.isNone && !noexcept then .atom "nonnull void (^)(NSError* _Nullable)"
-          else .atom ("nonnull void (^)(" ++ printT (refObjcO c m.ret) ++ " " ++ refObjcAnnotation m.ret true ++ (if noexcept then "" else ", NSError* _Nullable") ++ ")")
-        { pre := [if m.isStatic then "+" else "-"],
-          ret := if m.isAsync then .atom "void" else annT (refObjcAnnotation m.ret false) (refObjcO c m.ret),
-          name := convert c.methodStyle m.name,
-          params := m.params.map (mem true) ++
-            (if m.isAsync then [{ ty := completion, name := "completion" }]
-             else if !noexcept then [{ ty := .atom "NSError* _Nullable * _Nonnull", name := "error" }] else []),
-          post := [] }) }
+      methods := methods.map (objcWantMethod c) }
   | .function _ _ _ _ _ => { common with name := "" }
   | .error _ codes =>
     { common with
       kind := "error", items := codes.map (fun k => n ++ convert c.tyStyle k.name),
-      fields := codes.flatMap (fun k => k.params.map (fun p => { ty := .atom "NSErrorUserInfoKey", name := plain ++ convert c.tyStyle k.name ++ convert c.tyStyle p.name })) }
+      fields := codes.flatMap (fun k => k.params.map (fun p => { ty := .atom "NSErrorUserInfoKey", name := objcUserTypename c u ++ convert c.tyStyle k.name ++ convert c.tyStyle p.name })) }
+
+/-- nullability attribute of a parameter (when enabled): `AllowNull` iff optional -/
+def cliWantAttr (c : CliCfg) (o : Bool) : String :=
+  if c.nullability then (if o then "[System::Diagnostics::CodeAnalysis::AllowNull] " else "[System::Diagnostics::CodeAnalysis::DisallowNull] ") else ""
+
+def cliWantParam (c : CliCfg) (f : FieldD) : Want :=
+  { ty := .atom (cliWantAttr c f.ty.optional ++ printT (refCli c f.ty)), name := convert c.localStyle f.name }
+def cliWantPlainParam (c : CliCfg) (f : FieldD) : Want := { ty := refCli c f.ty, name := convert c.localStyle f.name }
+def cliWantProp (c : CliCfg) (f : FieldD) : Want := { ty := refCli c f.ty, name := convert c.propertyStyle f.name }
+
+def cliWantMethod (c : CliCfg) (m : MethodD) : WantMethod :=
+  { pre := [if m.isStatic then "static" else "virtual"], ret := refCliRet c m.ret m.isAsync, name := convert c.methodStyle m.name,
+    params := m.params.map (cliWantParam c), post := if m.isStatic then [] else ["abstract"] }
+
+def cliWantCode (c : CliCfg) (k : CodeD) : WantCode :=
+  { name := convert c.tyStyle k.name, fields := k.params.map (cliWantProp c), ctor := k.params.map (cliWantPlainParam c) }
 
 def wantCli (c : CliCfg) (d : Decl) : WantDecl :=
   let u := d.info
-  let attr (o : Bool) : String :=
-    if c.nullability then (if o then "[System::Diagnostics::CodeAnalysis::AllowNull] " else "[System::Diagnostics::CodeAnalysis::DisallowNull] ") else ""
-  let param (f : FieldD) : Want := { ty := .atom (attr f.ty.optional ++ printT (refCli c f.ty)), name := convert c.localStyle f.name }
-  let plainParam (f : FieldD) : Want := { ty := refCli c f.ty, name := convert c.localStyle f.name }
-  let prop (f : FieldD) : Want := { ty := refCli c f.ty, name := convert c.propertyStyle f.name }
   let common : WantDecl := { kind := "none", name := convert c.tyStyle (baseName "cppcli" u), scope := cliNamespace c u.ns, mods := [] }
   match d with
   | .enum _ items => { common with
@@ -235,20 +263,19 @@ def wantCli (c : CliCfg) (d : Decl) : WantDecl :=
       kind := "flags", items := items.map (fun f => convert c.enumStyle f.name) }
   | .record _ fields _ _ =>
     { common with
-      kind := "struct", mods := [if u.targets.contains "cppcli" then "abstract" else "sealed"], fields := fields.map prop, ctor := fields.map param }
+      kind := "struct", mods := [if u.targets.contains "cppcli" then "abstract" else "sealed"],
+      fields := fields.map (cliWantProp c), ctor := fields.map (cliWantParam c) }
   | .interface _ methods =>
     { common with
-      kind := "class", mods := ["abstract"], methods := methods.map (fun m =>
-        { pre := [if m.isStatic then "static" else "virtual"], ret := refCliRet c m.ret m.isAsync, name := convert c.methodStyle m.name,
-          params := m.params.map param, post := if m.isStatic then [] else ["abstract"] }) }
+      kind := "class", mods := ["abstract"], methods := methods.map (cliWantMethod c) }
   | .function _ anonymous params ret _ =>
     if anonymous then { common with name := "" }
     else { common with
       kind := "function",
-           methods := [{ pre := [], ret := refCliRet c ret false, name := convert c.tyStyle u.name, params := params.map param, post := [] }] }
+      methods := [{ pre := [], ret := refCliRet c ret false, name := convert c.tyStyle (baseName "cppcli" u), params := params.map (cliWantParam c), post := [] }] }
   | .error _ codes =>
     { common with
-      kind := "error", codes := codes.map (fun k => { name := convert c.tyStyle k.name, fields := k.params.map prop, ctor := k.params.map plainParam }) }
+      kind := "error", codes := codes.map (cliWantCode c) }
 
 def want (t : Target) (c : Cfg) (d : Decl) : WantDecl :=
   match t with
